@@ -241,12 +241,161 @@ def _stage1_columns(rep, lp, res, key_name, iff, env0=None):
         rep.undecided('stage 1 columns', lp, 'token / plain column paths not both found')
 
 
+def _ag_stage_model(cx, rep, port, p, mod, fd):
+    """select_aggregated decided on its abstract effects: the query context, its writer, the registered aggregators, the aggregate tokens
+    and the group keys are abstract objects; the function is run for the first record (stage 1) and for a second one (stage 2) and the
+    writer installed, the aggregators appended, the (aggregator, key, value) increments, the stage and the key set are compared with what
+    the two-stage protocol requires.  True when every scenario could be evaluated."""
+    from .. import absexec as AX
+    params = [a.arg for a in fd.args.args]
+    results = {}
+
+    def run(writer_cls, n_registered, first_values, second_values):
+        ctx = AX.Abs('Ctx')
+        w0 = AX.Abs('Obj', cls=writer_cls)
+        fas = [AX.Abs('Obj', cls='Aggregator', name='FA%d' % i) for i in range(n_registered)]
+        k1, k2 = AX.Abs('Key', id='K1'), AX.Abs('Key', id='K2')
+        made = []
+        incs = []
+        init = {'aggregation_stage': 1, 'writer': w0, 'functional_aggregators': fas}
+
+        def on_name(ex, node, name):
+            if name == 'query_context':
+                return ctx
+            if p.cls(mod, name, required=False) is not None:
+                return ('class', name)
+            return AX.NOT_HANDLED
+
+        def on_attr(ex, node, obj, attr):
+            if obj is ctx and attr in init:
+                return init[attr]
+            if isinstance(obj, AX.Abs) and obj.kind == 'Tok' and attr in ('marker_id', 'value'):
+                return ('nomemo', obj.props[attr])
+            return AX.NOT_HANDLED
+
+        def on_call(ex, node, fname, recv, args):
+            short = node.func.attr if isinstance(node.func, ast.Attribute) else fname.split('.')[-1]
+            if short.endswith('Error'):
+                return AX.Abs(short)
+            if fname == 'JSON.stringify' and len(args) == 1:
+                return AX.Abs('Json', of=args[0])
+            if short == 'AggregateWriter' and recv is None and len(args) == 1:
+                o = AX.Abs('Obj', cls='AggregateWriter')
+                ex.run.state[(o.uid, 'subwriter')] = args[0]
+                ex.run.state[(o.uid, 'aggregators')] = []
+                ex.run.state[(o.uid, 'aggregation_keys')] = set()
+                made.append(o)
+                return o
+            if short == 'ConstGroupVerifier' and recv is None and len(args) == 1:
+                return AX.Abs('Obj', cls='ConstGroupVerifier', index=args[0])
+            if short == 'increment' and isinstance(recv, AX.Abs) and recv.kind == 'Obj' and len(args) == 2:
+                incs.append((recv, args[0], args[1]))
+                return None
+            return AX.NOT_HANDLED
+        ex = AX.Explorer(p, mod, on_call=on_call, on_attr=on_attr, on_name=on_name, max_choices=1)
+        ex.cls = None
+        ex._script, ex._pos, ex.steps, ex.depth = [], 0, 0, 0
+        ex.run = AX.Run()
+
+        def call(key, values):
+            args = []
+            for prm in params:
+                if prm == 'query_context':
+                    args.append(ctx)
+                elif prm == params[-2]:
+                    args.append(key)
+                elif prm == params[-1]:
+                    args.append(list(values))
+            try:
+                ex.call_fd(fd, args)
+                return None
+            except AX.Raised as r:
+                return r.value
+        toks = {}
+
+        def val(v):
+            if isinstance(v, tuple):        # ('tok', marker id)
+                toks.setdefault(v, AX.Abs('Tok', cls='RBQLAggregationToken', marker_id=v[1], value=AX.Abs('Val', id='V%d' % len(toks))))
+                return toks[v]
+            return AX.Abs('Val', id=v)
+        v1 = [val(v) for v in first_values]
+        err1 = call(k1, v1)
+        state1 = dict(stage=ex.run.state.get((ctx.uid, 'aggregation_stage'), 1), writer=ex.run.state.get((ctx.uid, 'writer'), w0), incs=list(incs))
+        ags = list(ex.run.state.get((made[0].uid, 'aggregators'), [])) if made else []
+        err2 = None
+        v2 = []
+        if err1 is None and second_values is not None:
+            del incs[:]
+            v2 = [val(v) for v in second_values]
+            err2 = call(k2, v2)
+        keys = set(ex.run.state.get((made[0].uid, 'aggregation_keys'), set())) if made else set()
+        return dict(ctx=ctx, w0=w0, fas=fas, k1=k1, k2=k2, made=made, v1=v1, v2=v2, err1=err1, err2=err2, state1=state1, ags=ags, incs2=list(incs), keys=keys,
+                    stage=ex.run.state.get((ctx.uid, 'aggregation_stage'), 1), sub=ex.run.state.get((made[0].uid, 'subwriter')) if made else None)
+
+    def key_is(v, k):
+        return v is k or (isinstance(v, AX.Abs) and v.kind == 'Json' and v.props['of'] is k)
+    bad = {}
+    try:
+        # main scenario: SELECT agg1(..), plain, agg0(..) GROUP BY .. ; tokens carry the marker ids 1 and 0 (registration order differs from column order)
+        r = run('TopWriter', 2, [('tok', 1), 'P', ('tok', 0)], ['X0', 'X1', 'X2'])
+        if r['err1'] is not None or r['err2'] is not None:
+            bad['stage 1 columns'] = 'a well-formed aggregate query raises {}'.format((r['err1'] or r['err2']).kind)
+        else:
+            if not (len(r['made']) == 1 and r['state1']['writer'] is r['made'][0] and r['sub'] is r['w0']):
+                bad['stage 1 writer'] = 'AggregateWriter is not installed exactly once, around the previous writer, in stage 1'
+            ags = r['ags']
+            shape = len(ags) == 3 and ags[0] is r['fas'][1] and ags[2] is r['fas'][0] and isinstance(ags[1], AX.Abs) and ags[1].props.get('cls') == 'ConstGroupVerifier' and ags[1].props.get('index') == 1
+            want1 = [(0, r['v1'][0].props['value']), (1, r['v1'][1]), (2, r['v1'][2].props['value'])]
+            i1 = r['state1']['incs']
+            fed = shape and len(i1) == 3 and all(i1[j][0] is ags[a] and key_is(i1[j][1], r['k1']) and i1[j][2] is v for j, (a, v) in enumerate(want1))
+            if not shape:
+                bad['stage 1 columns'] = 'for columns (token #1, plain, token #0) the aggregators appended are [{}] instead of [registered #1, ConstGroupVerifier(1), registered #0]'.format(', '.join((a.props.get('name') or '{}({})'.format(a.props.get('cls'), a.props.get('index'))) if isinstance(a, AX.Abs) else repr(a) for a in ags))
+            elif not fed:
+                bad['stage 1 columns'] = 'the first record is not fed to the aggregators as (aggregator of the column, group key, value of the column) in column order'
+            if r['state1']['stage'] != 2:
+                bad['stage transition'] = 'stage 1 does not end with aggregation_stage = 2'
+            i2 = r['incs2']
+            ok2 = shape and len(i2) == 3 and all(i2[j][0] is ags[j] and key_is(i2[j][1], r['k2']) and i2[j][2] is r['v2'][j] for j in range(3))
+            if not ok2:
+                bad['stage 2'] = 'stage 2 does not increment aggregator i with output value i under the group key'
+            if not (any(key_is(k, r['k1']) for k in r['keys']) and any(key_is(k, r['k2']) for k in r['keys']) and len(r['keys']) == 2):
+                bad['key set'] = 'the group key is not added to the key set for every aggregated record'
+        # an aggregate hidden inside an expression: one token in the output, two aggregators registered
+        r = run('TopWriter', 2, [('tok', 0), 'P'], None)
+        if not (isinstance(r['err1'], AX.Abs) and r['err1'].kind == 'RbqlParsingError'):
+            bad['stage 1 nested aggregate check'] = 'an aggregate nested inside an expression is not detected (token count != registered aggregators)'
+        # sorting / dedup writers are rejected before anything is installed
+        for wc in ('SortedWriter', 'UniqWriter', 'UniqCountWriter'):
+            if p.cls(mod, wc, required=False) is None:
+                continue
+            r = run(wc, 1, [('tok', 0)], None)
+            if not (isinstance(r['err1'], AX.Abs) and r['err1'].kind == 'RbqlParsingError') or r['state1']['writer'] is not r['w0']:
+                bad['stage 1 guard'] = 'ORDER BY / DISTINCT in an aggregate query is not rejected with a parsing error before the AggregateWriter is installed (writer {})'.format(wc)
+    except (Undecided, AX._NeedChoice, AX.Cut, KeyError, IndexError) as e_:
+        import os
+        if os.environ.get('RBQL_VERIF_DEBUG'):
+            print('AG-STAGE model gave up:', type(e_).__name__, e_)
+        return False
+    good = {'stage 1 writer': 'AggregateWriter is installed once, in stage 1, around the previous writer',
+            'stage 1 guard': 'sorting/dedup writers are rejected with a parsing error before the AggregateWriter is installed',
+            'stage 1 columns': 'per output column: the aggregator registered under the token\'s marker id fed with the token\'s value / ConstGroupVerifier(column index) fed with the value',
+            'stage 1 nested aggregate check': 'aggregates hidden inside expressions are a parsing error',
+            'stage transition': 'stage := 2 at the end of stage 1',
+            'stage 2': 'aggregators[i].increment(key, value i)',
+            'key set': 'the group key is recorded for every record, in both stages'}
+    for k_ in ('stage 1 writer', 'stage 1 guard', 'stage 1 columns', 'stage 1 nested aggregate check', 'stage transition', 'stage 2', 'key set'):
+        rep.decide(k_ not in bad, k_, fd, good[k_] + ' (abstract run of two records)', bad.get(k_, ''))
+    return True
+
+
 def rule_ag_stage(cx, rep, port):
     """select_aggregated: stage 1 appends one aggregator/verifier per output column in column order, then stage := 2;
     stage 2 increments aggregators[i] with value i; the key is added to the key set in both stages"""
     p = cx.port(port)
     mod = cx.engine_mod(port)
     fd = p.func(mod, 'select_aggregated')
+    if _ag_stage_model(cx, rep, port, p, mod, fd):
+        return
     top = [s for s in fd.body if isinstance(s, ast.If) and 'aggregation_stage' in node_text(s.test)]
     if len(top) != 1:
         raise Undecided('select_aggregated: stage dispatch not found', fd)
